@@ -470,7 +470,7 @@ func identStream(c *Ctx) {
 		mg.Deps(fa, fb)
 		ran := atomic.LoadInt64(&identCount) - before
 		sameKey := fa.Name() == fb.Name() && fa.ID() == fb.ID()
-		impl := J{"same": ran == 1, "keySame": sameKey}
+		impl := J{"same": ran == 1, "keySame": sameKey, "idA": fa.ID(), "idB": fb.ID()}
 		tags := []string{"ident"}
 		if a.name == b.name {
 			tags = append(tags, "same-fn")
